@@ -91,6 +91,23 @@ def r1_summary_roles(ctx, rep, R='C12.R1'):
             rep.check(got == exp, R, 'summary %s = %s' % (k, ' + '.join(exp)),
                       'summary argument %s is computed from %s, expected %s' % (k, got, exp),
                       key='summary:' + k, func=fi.qualname, where=ctx.where(fi, c))
+    # one result object per iteration: counts and lists of an iteration are those of that iteration
+    from .common import repeat_loop
+    g = ctx.cfg(fi)
+    rl = repeat_loop(ctx, fi, g)
+    mk = [n.id for n in g.nodes if n.kind == 'stmt' and isinstance(n.ast, ast.Assign) and
+          isinstance(n.ast.value, ast.Call) and (dotted(n.ast.value.func) or '').endswith('TestResult')]
+    fresh = rl is not None and len(mk) == 1 and mk[0] in g.loop_nodes(rl.id)
+    if fresh:
+        body = [d for d, k in g.succ[rl.id] if k == 'true']
+        r = g.reach(body, avoid=set(mk), include_start=True)
+        fresh = rl.id not in r and not any(
+            x in r for x in g.loop_nodes(rl.id) if g.node(x).kind == 'for')
+    rep.check(fresh, R, 'run_tests: a fresh TestResult is created in every --repeat iteration, before the '
+              'test loops', 'the TestResult is created outside the --repeat loop (or not on every path '
+              'of an iteration): failures, errors, skips and testsRun of earlier iterations are '
+              'counted and listed again', key='result:per-iteration', func=fi.qualname,
+              where=ctx.where(fi, fi.node))
     rets = [x for x in ast.walk(fi.node) if isinstance(x, ast.Return) and x.value is not None]
     ok = bool(rets) and all(terms(x.value, fi.node) and
                             set(terms(x.value, fi.node)) == {'%s.testsRun' % res} for x in rets)
@@ -238,7 +255,11 @@ def r3_accumulators(ctx, rep, R='C12.R3'):
 LABELS = {'n_tests': 'tests', 'n_failures': 'failures', 'n_errors': 'errors', 'n_skipped': 'skipped'}
 
 
+_CTX = []
+
+
 def r6_labels(ctx, rep, R='C12.R6'):
+    _CTX[:] = [ctx]
     rep.rule(R, 'in the summary / totals line of every formatter each number is followed by its own '
              'label (the n_failures value is printed before "failures", ...)')
     n = 0
@@ -268,10 +289,25 @@ def r6_labels(ctx, rep, R='C12.R6'):
 
 def _token_sequence(fi):
     """[(kind, value)] of what the method prints, in order; None if it prints nothing"""
-    from .common import expander
+    from .common import expander, inlined
     ps = set(params(fi))
-    expand = expander(fi.node, lambda v: isinstance(v, (ast.Tuple, ast.Constant, ast.BinOp, ast.JoinedStr)))
-    for c in own_calls(fi.node):
+    node = inlined(_CTX[0], fi) if _CTX else fi.node
+    expand = expander(node, lambda v: isinstance(v, (ast.Tuple, ast.Constant, ast.BinOp, ast.JoinedStr)))
+    calls = [c for c in ast.walk(node) if isinstance(c, ast.Call)]
+    for c in calls:
+        if dotted(c.func) == 'print' and c.args and isinstance(c.args[0], ast.Call) and \
+                isinstance(c.args[0].func, ast.Attribute) and c.args[0].func.attr == 'format' and \
+                isinstance(c.args[0].func.value, ast.Constant):
+            fmt = c.args[0].func.value.value
+            args = c.args[0].args
+            pieces = re.split(r'\{[^{}]*\}', fmt)
+            seq = [('text', pieces[0])]
+            for a, piece in zip(args, pieces[1:]):
+                nm = [x.id for x in ast.walk(a) if isinstance(x, ast.Name) and x.id in ps]
+                seq.append(('param', nm[0]) if nm else ('other', norm(a)))
+                seq.append(('text', piece))
+            return seq
+    for c in calls:
         a0 = expand(c.args[0]) if c.args else None
         if dotted(c.func) == 'print' and a0 is not None and isinstance(a0, ast.BinOp) and \
                 isinstance(a0.op, ast.Mod) and isinstance(a0.left, ast.Constant):
